@@ -378,6 +378,9 @@ fn refine(case: &Case, rep: &mut Report) {
         rep.nontrivial.insert(digest);
     }
     rep.count("once_skips", m.once_skips as u64);
+    if m.self_references > 0 {
+        rep.count("graphs_with_self_referential_macro_use", 1);
+    }
     rep.count("cross_file_redefinitions", m.cross_file_redefs as u64);
     rep.count("includes_followed", m.walk.len() as u64);
     if m.max_depth >= 3 {
